@@ -578,6 +578,8 @@ impl<'a, F: Field> SubAssign<&'a SparsePolynomial<F>> for DensePolynomial<F> {
             for (i, coeff) in other.iter() {
                 self.coeffs[*i] = (*coeff).neg();
             }
+            // `other` may be zero as well, in which case the resize left a lone zero.
+            self.truncate_leading_zeros();
         } else if other.is_zero() {
         } else {
             // The degree is read once: the loop below may cancel the leading
